@@ -1,11 +1,11 @@
 package main
 
 import (
-	"strconv"
 	"flag"
 	"fmt"
 	"os"
 	"sort"
+	"strconv"
 	"strings"
 	"time"
 
